@@ -905,6 +905,38 @@ pub fn run(tier: &str) -> i32 {
                   ctx.violation(&format!("C19 case=table field=ram code=0x{:02X}", ramc), || J::obj().set("case", case_json()).set("expected", J::obj().set("ram_bytes", J::u(wr as u64))).set("observed", J::obj().set("core.memory.cart_ram.len", J::u(ram_len as u64))));
                 }
               }
+              // the controller of the machine the load path built is the one the header tables
+              // give: both driven with the same register writes
+              if let Ok(h) = crate::world::read_header_of(&path) {
+                let probe = catch_unwind(AssertUnwindSafe(|| {
+                  let mut want = h.create_cart_state();
+                  let mut diff: Option<(u16, u8, (usize, usize), (usize, usize))> = None;
+                  for (a, v) in [(0x0100u16, 0x0Au8), (0x2100, 2), (0x2100, 3), (0x4100, 1), (0x6100, 1), (0x2100, 0x25), (0x4100, 2), (0x6100, 0), (0x2100, 0), (0x2100, 4)].iter() {
+                    core.memory.cart_state.write_rom(*a, *v);
+                    want.write_rom(*a, *v);
+                    let g = (core.memory.cart_state.get_rom_bank(), core.memory.cart_state.get_ram_bank());
+                    let w2 = (want.get_rom_bank(), want.get_ram_bank());
+                    if g != w2 && diff.is_none() {
+                      diff = Some((*a, *v, g, w2));
+                    }
+                  }
+                  // back to the power-on mapping for what follows
+                  for (a, v) in [(0x6100u16, 0u8), (0x4100, 0), (0x2100, 1), (0x0100, 0)].iter() {
+                    core.memory.cart_state.write_rom(*a, *v);
+                  }
+                  diff
+                }));
+                if let Ok(Some((a, v, g, w2))) = probe {
+                  ctx.violation(&format!("C19 case=table field=type code=0x{:02X} kind=loaded-machine-has-another-controller", t), || {
+                    J::obj()
+                      .set("case", case_json())
+                      .set("probe", J::s("the loaded machine's controller and Header::create_cart_state() driven with the same register writes"))
+                      .set("first_difference_after_write", J::s(format!("{:04X}<-{:02X}", a, v)))
+                      .set("observed", J::obj().set("rom_bank", J::u(g.0 as u64)).set("ram_bank", J::u(g.1 as u64)))
+                      .set("expected", J::obj().set("controller", J::s(ctl_name(Some(ctl)))).set("rom_bank", J::u(w2.0 as u64)).set("ram_bank", J::u(w2.1 as u64)))
+                  });
+                }
+              }
               // last ROM byte through the bus (file is at least as long as any mapping ≤ 8 MiB)
               if rom_len as u64 <= BIG && rom_len >= 0x8000 {
                 let banks = rom_len / 0x4000;
